@@ -33,7 +33,7 @@ func init() {
 		ID: "C09", Level: "model_checking", Engine: "E2-BFS", DesignRef: "DESIGN.md §4 C09, §5",
 		Technique: "explicit-state breadth-first search over operation sequences on the real Store (un-instrumented build, white-box, driven synchronously: Wait after every write, every read delivered through the real drainRead): successor = fresh NewStore + start program + warm-up + replay of the history + one more operation; 128-bit canonical-state hash for deduplication; the oracle is evaluated after every operation. A fixed grid of generated traces against a reference LRU is attached as supporting evidence only",
 		LevelText: "DECIDED (first sentence of the statement, its deterministic core): for MaxSize 4, 8, 16 and hot sets of 1..MaxSize/2 keys, after every hot key was Set and read 3 times (reads delivered), EVERY sequence up to the depth bound over {delivered read of h (each h in H), insertion of a never-seen key} keeps all of H resident (shard map + policy list) and makes every Get of a hot key a hit — from a fresh cache and from non-fresh start states: sketch about to age / aged by real traffic, window moved by the hill climber (sample counters set white-box, and by real traffic made only of hot reads and one-off inserts), and a cache whose single read stripe is in the wedged state C08 reports after concurrent use (reads then travel only through the real Get path; a control scenario with a healthy stripe runs the same program). Model checking is the right level for this half because the policy is a small sequential state machine behind the store's queues: with synchronous driving its state collapses to 10^3..10^6 canonical states and enumeration on the real code decides the bounded claim with no model to keep in sync. NOT DECIDED (second half: 'converges to nearly 100 %', 'hit ratio >= LRU on Zipf traces'): these quantify over distributions of long traces; the grid scenarios (named evidence-only) evaluate 48 listed cells per cache size and alarm only below floors set under the values measured on the unchanged tree",
-		LevelNote: "bounded: MaxSize in {4,8,16}; |H| <= MaxSize/2; warm-up of exactly 3 delivered reads per hot key; unit costs in the search; depth per scenario (quick 5..14, thorough 5..30) plus, where insert_tail is set, every visited state extended by up to 12..16 consecutive inserts; one read stripe; reads delivered one by one (mode flush: real Get, then drainRead(stripe.items()) and stripe.Clear() as the repository's persistence test does) or only by the real Buffer.Add (mode getpath, bursts of 32 Gets). canonical state 'exact' = region lists with concrete keys + whole sketch table + sample/climber fields + number of one-off keys used (no assumption); 'role' = region lists of (hot/one-off, sketch estimate) + capacities + sample/climber fields + Additions, exact under the asserted precondition that hot, resident and fresh keys have pairwise disjoint sketch counters (keys searched with the real indexOf/rehash; checked at every start state), so real counter collisions are only covered by the 'exact' scenarios. trusted: the observation hook (public StringKeyFunc returning the key's 8 raw bytes: asserted to hash exactly like the default path) that logs which (candidate, victim) pair admit compared; admit's 1/128 coin cannot be controlled in a plain build: the harness proves per comparison whether the coin was reached (candidate estimate >= 6 and <= victim's); that only happens hot-vs-hot, where either result evicts a hot key, any other occurrence is reported as a cap. white-box start states (Additions, sample counters, the wedged ring) are states, not histories: their reachability is argued by C07/C08 and, for the moved window, by the traffic-* scenarios which reach it with real operations only. The grid half is evidence, not a decision: fixed seeds (hand-written splitmix64), universe 20*size, 40*size requests, skews 0.8 and 1.05, uniform and mixed (1..4) costs, plain and loading store; hybrid cache not covered",
+		LevelNote: "bounded: MaxSize in {4,8,16}; |H| <= MaxSize/2; warm-up of exactly 3 delivered reads per hot key; unit costs in the search; depth per scenario (quick 5..14, thorough 5..30) plus, where insert_tail is set, every visited state extended by up to 12..16 consecutive inserts; one read stripe; reads delivered one by one (mode flush: real Get, then drainRead(stripe.items()) and stripe.Clear() as the repository's persistence test does) or only by the real Buffer.Add (mode getpath, bursts of 32 Gets). canonical state 'exact' = region lists with concrete keys + whole sketch table + sample/climber fields + number of one-off keys used (no assumption); 'role' = region lists of (hot/one-off, sketch estimate) + capacities + sample/climber fields + Additions, exact under the asserted precondition that hot, resident and fresh keys have pairwise disjoint sketch counters (keys searched with the real indexOf/rehash; checked at every start state), so real counter collisions are only covered by the 'exact' scenarios. trusted: the observation hook (public StringKeyFunc returning the key's 8 raw bytes: asserted to hash exactly like the default path) that logs which (candidate, victim) pair admit compared; admit's 1/128 coin cannot be controlled in a plain build: the harness proves per comparison whether the coin was reached (candidate estimate >= 6 and <= victim's); that only happens hot-vs-hot, where either result evicts a hot key, any other occurrence is reported as a cap. white-box start states (Additions, sample counters, the wedged ring) are states, not histories: their reachability is argued by C07/C08 and, for the moved window, by the traffic-* scenarios which reach it with real operations only. The grid half is evidence, not a decision: fixed seeds (hand-written splitmix64), universe 20*size, 40*size requests, skews 0.8 and 1.05, uniform and mixed (1..4) costs, plain and loading store; the two-tier kinds by the scenario hybrid-hot-set only (18 fully listed cases, supporting evidence)",
 		Rule:      "BFS frontier of shortest histories over the alphabet read h1..h|H|, insert (getpath mode: burst, insert); canonical state as described in level_note; violating states are not expanded; replay determinism asserted for every expanded state (canonical hash of the replayed history must equal the stored one); shards split the frontier at depth 3 (a state reachable from two parts is counted by both: counts are upper bounds, exploration is complete); distinct outcome = (operation kind, region move of the read key | comparison made and who lost | direct eviction, sketch reset, climb and window delta); grid: one execution per cell, outcome = cell class + margin bucket",
 		Assume: []string{
 			"decides only the deterministic core of the first sentence (hot set retained, every hot read a hit, within the bounds); the distributional half (convergence, >= LRU on Zipf traces) is supported by a fixed grid and NOT decided",
@@ -43,6 +43,7 @@ func init() {
 			"grid floors: Zipf cells alarm below the reference LRU's hit ratio (measured margin on the unchanged tree: +0.035 .. +0.13 over sizes 50/500/5000), hot-set cells below 0.99 (measured 1.0000, at size 5000 >= 0.9998)",
 		},
 		Quick: []Scenario{
+			{Name: "C09/hybrid-hot-set", Build: plain, Pkg: "internal", Test: "TestVerif_C09Hybrid", Shards: 6, BudgetS: 60},
 			sc("fresh-4-h1", "max=4,h=1,depth=14,canon=exact,tail=12", 1, 60),
 			sc("fresh-4-h2", "max=4,h=2,depth=14,canon=exact,tail=12", 1, 60),
 			sc("fresh-8-h4", "max=8,h=4,depth=9,canon=exact", 1, 60),
@@ -74,6 +75,7 @@ func init() {
 			grid(500, 2, 60),
 		},
 		Thorough: []Scenario{
+			{Name: "C09/hybrid-hot-set", Build: plain, Pkg: "internal", Test: "TestVerif_C09Hybrid", Shards: 9, BudgetS: 600},
 			sc("fresh-4-h1", "max=4,h=1,depth=30,canon=exact,tail=16", 1, 600),
 			sc("fresh-4-h2", "max=4,h=2,depth=28,canon=exact,tail=16", 2, 600),
 			sc("fresh-8-h2", "max=8,h=2,depth=20,canon=exact,tail=16", 2, 600),
